@@ -17,7 +17,8 @@
 //        break     breakIntoStructures / breakIntoMotifs == connected components
 //        equiv     A.isStructureEquivalent(B) and B.isStructureEquivalent(A) (B is a relabelled
 //                  copy by construction); findStructureId<GraphDistVisitor> equal on both
-//   A  equiv only, for ALL name/mass assignments (2 names x 2 masses per vertex)
+//   A  equiv only, for ALL name/mass assignments (2 names x 2 masses per vertex, n <= 4) and for molecule-like
+//      structures with several distinct non-dyadic masses under many relabellings x 5 id sets x insertion orders
 //   D  one structure X against every other structure Y of a universe: if the multisets of
 //      (name,mass) differ, isStructureEquivalent must be false (both directions)
 //   H  reuse history on ONE BeadStructure: beads/bonds added in stages, after every stage one query out of
@@ -51,16 +52,39 @@ typedef std::pair<int, int> IP;
 typedef std::pair<Index, Index> EP;
 
 // ------------------------------------------------------------------ alphabet
-static const int NIDSETS = 3;
+static const int NIDSETS = 5;
 static const Index IDSET[NIDSETS][12] = {
     {0, 1, 2, 3, 4, 5, 6, 7, 8, 9, 10, 11},
     // large sparse ids
     {1000000007LL, 5, 4294967299LL, 77, 123456789012LL, 31, 2147483647LL, 600, 9007199254740993LL, 42,
      8589934592LL, 19},
     // multiples of 13 (all collide in a 13-bucket libstdc++ hash table): iteration order != insertion order
-    {26, 0, 169, 13, 377, 39, 52, 2197, 65, 338, 91, 130}};
-static const char *NAMES[2] = {"A", "B"};
-static const double MASSES[2] = {1.0, 12.011};
+    {26, 0, 169, 13, 377, 39, 52, 2197, 65, 338, 91, 130},
+    // stride 7 from 5: scattered over the 13 buckets in an order unrelated to the insertion order
+    {5, 12, 19, 26, 33, 40, 47, 54, 61, 68, 75, 82},
+    // shifted block, descending
+    {1000014, 1000013, 1000012, 1000011, 1000010, 1000009, 1000008, 1000007, 1000006, 1000005, 1000004, 1000003}};
+// per-bead attributes = what BeadStructure::AddBead stores (BeadInfo: name and mass; nothing else of a Bead is kept).
+// one character per bead; different characters = different (name,mass) pairs
+struct BeadAttr { const char *name; double mass; };
+static BeadAttr attrOf(char a) {
+  switch (a) {
+    case '0': return {"A", 1.0};
+    case '1': return {"B", 1.0};
+    case '2': return {"A", 12.011};
+    case '3': return {"B", 12.011};
+    case '4': return {"H", 1.008};     // element-like, non-dyadic masses
+    case '5': return {"C", 12.011};
+    case '6': return {"O", 15.999};
+    case '7': return {"N", 14.007};
+    case '8': return {"CG1", 56.108};  // coarse-grained bead masses
+    case '9': return {"CG2", 72.11};
+    case 'a': return {"CG3", 44.05};
+    case 'b': return {"C", 13.003};    // same name as '5', other mass
+    default: throw std::runtime_error("harness: bad attribute character");
+  }
+}
+static const std::string ATTRCHARS = "0123456789ab";
 
 struct Base {  // base graph in its own labelling 0..n-1, edges (i<j) in canonical order
   int n = 0;
@@ -227,10 +251,9 @@ static Xf identityXf(const Base &b) {
   return x;
 }
 static GraphNode mkNode(char a) {
-  int d = a - '0';
   GraphNode gn;
-  gn.setDouble({{"Mass", MASSES[(d >> 1) & 1]}});
-  gn.setStr({{"Name", NAMES[d & 1]}});
+  gn.setDouble({{"Mass", attrOf(a).mass}});
+  gn.setStr({{"Name", attrOf(a).name}});
   return gn;
 }
 static Graph mkGraph(const Inst &I) {
@@ -244,8 +267,7 @@ static Graph mkGraph(const Inst &I) {
 static BeadStructure mkBS(const Inst &I) {
   BeadStructure bs;
   for (int v : I.vorder) {
-    int d = I.attr[v] - '0';
-    bs.AddBead(TB{I.id[v], MASSES[(d >> 1) & 1], NAMES[d & 1]});
+    bs.AddBead(TB{I.id[v], attrOf(I.attr[v]).mass, attrOf(I.attr[v]).name});
   }
   for (size_t k = 0; k < I.e.size(); k++) {
     if (k % 2) bs.ConnectBeads(I.id[I.e[k].second], I.id[I.e[k].first]);
@@ -509,8 +531,7 @@ static void checkHistory(const Case &c, Summary &S) {
   for (size_t st = 0; st < cuts.size(); st++) {
     for (; pos < (size_t)cuts[st] && pos < ev.size(); pos++) {
       if (ev[pos].bead) {
-        int d = I.attr[ev[pos].v] - '0';
-        H.AddBead(TB{I.id[ev[pos].v], MASSES[(d >> 1) & 1], NAMES[d & 1]});
+        H.AddBead(TB{I.id[ev[pos].v], attrOf(I.attr[ev[pos].v]).mass, attrOf(I.attr[ev[pos].v]).name});
       } else if (pos % 2) H.ConnectBeads(I.id[ev[pos].e.second], I.id[ev[pos].e.first]);
       else H.ConnectBeads(I.id[ev[pos].e.first], I.id[ev[pos].e.second]);
     }
@@ -775,8 +796,31 @@ static std::vector<std::vector<int>> edgeOrders(int m, bool all) {
 }
 static std::string patternAttr(int n) {
   std::string s;
-  for (int i = 0; i < n; i++) s += char('0' + ((i * 7 + i / 3) & 3));
+  static const char RICH[] = "456789ab";  // several distinct non-dyadic masses (element-like and coarse-grained)
+  for (int i = 0; i < n; i++) s += RICH[(i * 5 + i / 3) % 8];
   return s;
+}
+// molecule-like structures with the attributes a real topology gives the beads (BeadStructure keeps name and mass)
+struct Mol { std::string name; Base b; };
+static std::vector<Mol> molecules() {
+  std::vector<Mol> r;
+  auto mk = [&](const std::string &name, const std::string &attr, std::vector<IP> e) {
+    std::sort(e.begin(), e.end());
+    Base b; b.n = (int)attr.size(); b.e = e; b.attr = attr;
+    r.push_back({name, b});
+  };
+  mk("water", "644", {{0, 1}, {0, 2}});
+  mk("methane", "54444", {{0, 1}, {0, 2}, {0, 3}, {0, 4}});
+  mk("methanol", "564444", {{0, 1}, {0, 2}, {0, 3}, {0, 4}, {1, 5}});
+  mk("ethanol", "556444444", {{0, 1}, {1, 2}, {0, 3}, {0, 4}, {0, 5}, {1, 6}, {1, 7}, {2, 8}});
+  mk("glycine", "7556644444", {{0, 1}, {1, 2}, {2, 3}, {2, 4}, {0, 5}, {0, 6}, {1, 7}, {1, 8}, {4, 9}});
+  mk("cg-chain6", "89a98a", {{0, 1}, {1, 2}, {2, 3}, {3, 4}, {4, 5}});
+  mk("cg-ring5", "89a89", {{0, 1}, {1, 2}, {2, 3}, {3, 4}, {0, 4}});
+  mk("cg-branched7", "8899aa8", {{0, 1}, {1, 2}, {1, 3}, {3, 4}, {3, 5}, {5, 6}});
+  mk("two-waters", "644644", {{0, 1}, {0, 2}, {3, 4}, {3, 5}});
+  mk("pyrrole-like", "7555544444", {{0, 1}, {1, 2}, {2, 3}, {3, 4}, {0, 4}, {0, 5}, {1, 6}, {2, 7}, {3, 8}, {4, 9}});
+  mk("mixed-isotopes", "5b5b44", {{0, 1}, {1, 2}, {2, 3}, {0, 4}, {3, 5}});
+  return r;
 }
 
 struct Named { std::string name; Base b; };
@@ -970,6 +1014,34 @@ int main(int argc, char **argv) {
       } while (bsx::next(d, radix));
     }
   }
+  // ---- A/G/D on molecule-like structures with several distinct non-dyadic masses: relabelled copies (all / many fixed
+  //      relabellings x all 5 id sets x both bead insertion orders x 2 bond insertion orders) must be equivalent in both
+  //      directions; a copy with ONE bead attribute changed (other name and/or other mass) must be different
+  auto mols = molecules();
+  for (auto &mo : mols) {
+    const Base &b = mo.b;
+    auto perms = b.n <= 5 ? allPerms(b.n) : fixedPerms(b.n, 40);
+    auto eos = edgeOrders((int)b.e.size(), false);
+    for (size_t pi = 0; pi < perms.size(); pi++)
+      for (int ids = 0; ids < NIDSETS; ids++)
+        for (int vo = 0; vo < 2; vo++)
+          for (size_t oi = 0; oi < 2 && oi < eos.size(); oi++) {
+            Case c; c.kind = 'A'; c.g = b; c.x.perm = perms[pi]; c.x.ids = ids; c.x.eo = eos[oi ? eos.size() - 1 - (pi % 2) : 0]; c.x.vo = vo;
+            push(c);
+          }
+    auto gperms = fixedPerms(b.n, thorough ? 12 : 6);
+    for (size_t pi = 0; pi < gperms.size(); pi++)
+      for (int ids = 0; ids < NIDSETS; ids++) {
+        Case c; c.kind = 'G'; c.g = b; c.x.perm = gperms[pi]; c.x.ids = ids; c.x.eo = eos[(pi + ids) % eos.size()]; c.x.vo = int((pi + ids) % 2);
+        push(c);
+      }
+    for (int v = 0; v < b.n; v++)
+      for (char ch : ATTRCHARS) {
+        if (ch == b.attr[v]) continue;
+        Case c; c.kind = 'D'; c.scope = 0; c.g = b; c.g2 = b; c.g2.attr[v] = ch;
+        push(c);
+      }
+  }
   famcount["A"] = gi - g0; g0 = gi;
   // ---- D: different multisets must be different.  quick: universe n<=3 (all pairs) + n=4 within the same graph;
   //         thorough: universe n<=4, all pairs
@@ -1058,8 +1130,11 @@ int main(int argc, char **argv) {
       " named graphs on 7..12 vertices (chains, rings, stars, binary trees, tadpoles, caterpillars, fused rings, ladders, spiro, "
       "ring-bond-ring, Petersen, cube, K3,3/K4/K7 variants, theta, pivot of three rings, disconnected mixtures with isolated vertices); "
       "presentations: all n! relabellings for n<=5 (12 fixed for n=6, up to 14 fixed for n>=7) into id sets {0..n-1}, {large sparse}, "
-      "{multiples of 13 = colliding hash buckets}; ALL edge insertion orders for n<=4 (6 fixed beyond), both vertex insertion orders; "
-      "node attributes: all 4^n assignments of 2 names x 2 masses for n<=4 (family A/D), uniform + one pattern elsewhere. "
+      "{multiples of 13 = colliding hash buckets}, {5+7i}, {descending shifted block} (the last two outside the exhaustive n<=5 products); ALL edge insertion orders for n<=4 (6 fixed beyond), both vertex insertion orders; "
+      "node attributes (name, mass = all that BeadStructure keeps of a bead): all 4^n assignments of 2 names x 2 masses for n<=4 (family A/D); elsewhere uniform + "
+      "one pattern over 8 (name,mass) pairs with distinct non-dyadic masses (1.008, 12.011, 15.999, 14.007, 56.108, 72.11, 44.05, 13.003); " +
+      std::to_string(mols.size()) + " molecule-like structures (water, methane, methanol, ethanol, glycine, CG chain/ring/branched, two waters, pyrrole-like, mixed isotopes) "
+      "under all (n<=5) / up to 40 fixed relabellings x 5 id sets x both bead orders x 2 bond orders, and every copy with ONE bead attribute replaced by each of the other 11 pairs (must be different). "
       "bound (" + a.tier + "): " + (thorough ? "everything above (n=5 with the third id set: one of the 6 edge orders per perm)" : "n<=4: one of the 2 id sets and vertex orders per (perm,edge order); n=5: one edge order and id set per perm; n=6: 2 of the 12 relabellings per graph; named: 6 relabellings") +
       ". oracle: adjacency-matrix BFS hop counts (Dist labels), union-find components (decoupleIsolatedSubGraphs, breakIntoStructures, "
       "breakIntoMotifs), set equality of vertices/edges after reduceGraph+expandGraph, connected-and-no-isolated-vertex (singleNetwork BF/DF from every "
